@@ -58,6 +58,7 @@ type Facts struct {
 	Scalar      []string         `json:"scalar_functions"`
 	Aggregate   []string         `json:"aggregate_functions"`
 	Analytic    []string         `json:"analytic_functions"`
+	Flags       []string         `json:"flags"` // names of the @@FLAGS (lib/option/flags.go, constants …Flag)
 	NilSites    []NilSite        `json:"nil_sites"`
 	Orphans     []string         `json:"orphan_types"` // declared error types that no constructor builds
 	Problems    []string         `json:"problems"`     // things the extractor could not interpret (=> broken obligation)
@@ -92,6 +93,7 @@ func main() {
 	}
 	extractExit(fset, *repo, consts, f)
 	extractFunctions(fset, qdir, f)
+	extractFlags(fset, *repo, f)
 	f.NilSites = findNilSites(fset, *repo, f)
 
 	sort.Slice(f.Errors, func(i, j int) bool {
@@ -477,6 +479,32 @@ func extractFunctions(fset *token.FileSet, qdir string, f *Facts) {
 	if len(f.Scalar) == 0 {
 		f.Problems = append(f.Problems, "built-in function table `Functions` not found in lib/query")
 	}
+}
+
+func extractFlags(fset *token.FileSet, repo string, f *Facts) {
+	file, err := parser.ParseFile(fset, filepath.Join(repo, "lib", "option", "flags.go"), nil, 0)
+	if err != nil {
+		return
+	}
+	for _, d := range file.Decls {
+		gd, ok := d.(*ast.GenDecl)
+		if !ok || gd.Tok != token.CONST {
+			continue
+		}
+		for _, s := range gd.Specs {
+			vs := s.(*ast.ValueSpec)
+			for i, n := range vs.Names {
+				if strings.HasSuffix(n.Name, "Flag") && i < len(vs.Values) {
+					if bl, ok := vs.Values[i].(*ast.BasicLit); ok && bl.Kind == token.STRING {
+						if name, err := strconv.Unquote(bl.Value); err == nil {
+							f.Flags = append(f.Flags, name)
+						}
+					}
+				}
+			}
+		}
+	}
+	sort.Strings(f.Flags)
 }
 
 // ---- Coq fragment ---------------------------------------------------------------------------------
